@@ -112,7 +112,7 @@ def rand_plain_scalar(rng, hashable_only=False):
     if k == "uuid":
         return {"k": "uuid", "ver": 4, "id": rng.randrange(2)}
     if k == "datetime":
-        return {"k": "datetime", "dt": rng.randrange(3)}
+        return {"k": "datetime", "dt": rng.choice([0, 1, 2, 1000, 2001])}      # (>= 1000: timezone-aware)
     return {"k": "date", "d": rng.randrange(3)}
 
 
